@@ -867,6 +867,8 @@ def run(tape):
                                     summarize(snap)))
             if len(hist) >= 2:
                 res.nontrivial = True
+            if kind.name == "GroupBy" and outcome[0] == "ok" and len(outcome[1]) >= 2:
+                res.probe("groupby-several-groups")
             if outcome[0] == "raise" and isinstance(outcome[1], lena.core.LenaException):
                 res.probe("compute-raises-documented-error")
             # 1. the documented aggregate
